@@ -81,8 +81,8 @@ theorem op_affine (op : Op) (v : View) (k : Int) : op.apply (shift k v) = shift 
       cases hw : (View.paren ⟨base, d0 :: d1 :: sub⟩ [Arg.rng 0 (min d0.size d1.size), Arg.rng 0 (min d0.size d1.size)]).lay with
       | nil => simp
       | cons e0 l2 => cases l2 <;> simp
-  | partitioned n => obtain ⟨base, lay⟩ := v; cases lay <;> simp [Op.apply, shift, View.partitioned]
-  | chunked c => obtain ⟨base, lay⟩ := v; cases lay <;> simp [Op.apply, shift, View.chunked, View.partitioned, View.size]
+  | partitioned n => obtain ⟨base, lay⟩ := v; cases lay <;> rfl
+  | chunked c => obtain ⟨base, lay⟩ := v; cases lay <;> rfl
   | flatted =>
     obtain ⟨base, lay⟩ := v
     match lay with
